@@ -526,6 +526,9 @@ def m_append(ex, st, recv, args, kwargs, node):
         st.assume(z3.ForAll([k], Implies(And(0 <= k, k < z3.Length(oc)), nc[k] == oc[k]), patterns=[nc[k]]))
         st.assume(nc[z3.Length(oc)] == args[0].term)
         st.assume(z3.Length(nc) == z3.Length(oc) + 1)
+        mx = fresh('am', Val)
+        st.assume(z3.ForAll([mx], z3.Contains(nc, z3.Unit(mx)) == Or(z3.Contains(oc, z3.Unit(mx)), mx == args[0].term),
+                            patterns=[z3.Contains(nc, z3.Unit(mx))]))
     return [(st, const_sv(None))], []
 
 
@@ -533,12 +536,25 @@ def m_append(ex, st, recv, args, kwargs, node):
 def m_extend(ex, st, recv, args, kwargs, node):
     a = va(recv.term)
     v = args[0]
+    if isinstance(v.ty, Ty.TAny):
+        ex.oblige(st, And(is_ref(v.term), KIND(va(v.term)) == K_LIST), 'extend-argument-is-a-list@L%d' % node.lineno, 'pre-of-callee')
+        st.assume(And(is_ref(v.term), KIND(va(v.term)) == K_LIST))
+        v = SV(v.term, Ty.TList(Ty.ANY))
     if not isinstance(Ty.strip_opt(v.ty), (Ty.TList, Ty.TTuple)) or isinstance(v.ty, Ty.TOpt):
         raise Unsupported('extend with %r' % (v.ty,))
     k1, k2 = st.notes.pop(('elems', str(recv.term)), None), st.notes.get(('elems', str(v.term)))
     if k1 is not None and k2 is not None:
         st.notes[('elems', str(recv.term))] = k1 + k2
-    st.L = z3.Store(st.L, a, z3.Concat(st.L[a], st.L[va(v.term)]))
+    old, ext = st.L[a], st.L[va(v.term)]
+    new = z3.Concat(old, ext)
+    st.L = z3.Store(st.L, a, new)
+    if SP.BOUND[0] is None:
+        # membership in a concatenation, stated explicitly to help quantifier instantiation
+        oc, ec, nc = fresh('ext_old', SeqVal), fresh('ext_arg', SeqVal), fresh('ext_new', SeqVal)
+        st.assume(And(oc == old, ec == ext, nc == new))
+        mx = fresh('em', Val)
+        st.assume(z3.ForAll([mx], z3.Contains(nc, z3.Unit(mx)) == Or(z3.Contains(oc, z3.Unit(mx)), z3.Contains(ec, z3.Unit(mx))),
+                            patterns=[z3.Contains(nc, z3.Unit(mx))]))
     return [(st, const_sv(None))], []
 
 
